@@ -8,7 +8,7 @@ from .skeletons import skeleton, U7, U9, UN3, KINDS_SMALL, KINDS_MED, KINDS_ALL
 from .mutate import mutate
 
 LEVEL = 'model_checking'
-BUDGET_S = {'quick': 170, 'thorough': 1800}
+BUDGET_S = {'quick': 250, 'thorough': 1800}
 MUT_PATHS = ['in', 'in/x', 'o', 'o/f', 'o/d', 'o/d/g']
 MUT_KINDS = ['none', 'delete', 'write', 'touch', 'mkdir', 'rmtree', 'file2dir', 'dir2file']
 
